@@ -596,22 +596,86 @@ func (e *Engine) learn(fc *fnCtx, st *state, x ssa.Value, nonNil bool) {
 	}
 }
 
-// exclusive lists the pairs (i,j) of nil-able results of fn such that every Return
-// of fn has the constant nil at i or at j.
-func (e *Engine) exclusive(fn *ssa.Function) [][2]int {
-	if pr, ok := e.exclPairs[fn]; ok {
-		return pr
-	}
-	var pairs [][2]int
-	res := fn.Signature.Results()
-	var rets []*ssa.Return
+// resultTuples lists, per way of returning, the values fn returns. Functions with
+// defer spill their results into local cells ("*t0 = v; rundefers; t1 = *t0; return
+// t1"): for those the tuples are the groups of stores into the result cells, one
+// group per block. ok=false when the shape is not understood.
+func resultTuples(fn *ssa.Function) (tuples [][]ssa.Value, ok bool) {
+	n := fn.Signature.Results().Len()
 	for _, b := range fn.Blocks {
 		if fn.Recover != nil && b == fn.Recover {
 			continue
 		}
-		if r, ok := b.Instrs[len(b.Instrs)-1].(*ssa.Return); ok {
-			rets = append(rets, r)
+		r, isRet := b.Instrs[len(b.Instrs)-1].(*ssa.Return)
+		if !isRet {
+			continue
 		}
+		if len(r.Results) != n {
+			return nil, false
+		}
+		cells := make([]*ssa.Alloc, n)
+		spilled := 0
+		for i, v := range r.Results {
+			if u, ok := v.(*ssa.UnOp); ok && u.Op == token.MUL {
+				if a, ok := u.X.(*ssa.Alloc); ok && !a.Heap {
+					cells[i] = a
+					spilled++
+				}
+			}
+		}
+		if spilled == 0 {
+			tuples = append(tuples, r.Results)
+			continue
+		}
+		if spilled != n {
+			return nil, false
+		}
+		groups := map[*ssa.BasicBlock][]ssa.Value{}
+		for i, a := range cells {
+			for _, ref := range *a.Referrers() {
+				st, ok := ref.(*ssa.Store)
+				if !ok || st.Addr != a {
+					continue
+				}
+				if fn.Recover != nil && st.Block() == fn.Recover {
+					continue
+				}
+				g := groups[st.Block()]
+				if g == nil {
+					g = make([]ssa.Value, n)
+					groups[st.Block()] = g
+				}
+				g[i] = st.Val // the last store in block order wins; stores of one return statement are adjacent
+			}
+		}
+		if len(groups) == 0 {
+			return nil, false
+		}
+		for _, g := range groups {
+			for _, v := range g {
+				if v == nil {
+					return nil, false // a result assigned on its own: not a return statement
+				}
+			}
+			tuples = append(tuples, g)
+		}
+	}
+	return tuples, len(tuples) > 0
+}
+
+// exclusive lists the pairs (i,j) of nil-able results of fn such that every way of
+// returning yields the constant nil at i or at j (directly, or by forwarding both
+// results of one call of a callee with the same property).
+func (e *Engine) exclusive(fn *ssa.Function) [][2]int {
+	if pr, ok := e.exclPairs[fn]; ok {
+		return pr
+	}
+	e.exclPairs[fn] = nil // cut recursion
+	var pairs [][2]int
+	res := fn.Signature.Results()
+	tuples, ok := resultTuples(fn)
+	if !ok {
+		return nil
 	}
 	nilable := func(t types.Type) bool {
 		switch t.Underlying().(type) {
@@ -620,17 +684,31 @@ func (e *Engine) exclusive(fn *ssa.Function) [][2]int {
 		}
 		return false
 	}
-	// results spilled through named result cells are loads, not constants: resolve
-	// "load of a cell that was last stored a nil constant" only in the simplest form.
-	resolve := func(v ssa.Value) ssa.Value { return v }
 	for i := 0; i < res.Len(); i++ {
 		for j := i + 1; j < res.Len(); j++ {
 			if !nilable(res.At(i).Type()) || !nilable(res.At(j).Type()) {
 				continue
 			}
-			all := len(rets) > 0
-			for _, r := range rets {
-				if len(r.Results) != res.Len() || !(isNilConst(resolve(r.Results[i])) || isNilConst(resolve(r.Results[j]))) {
+			all := true
+			for _, tp := range tuples {
+				if isNilConst(tp[i]) || isNilConst(tp[j]) {
+					continue
+				}
+				ei, iok := tp[i].(*ssa.Extract)
+				ej, jok := tp[j].(*ssa.Extract)
+				fwd := false
+				if iok && jok && ei.Tuple == ej.Tuple {
+					if call, ok := ei.Tuple.(*ssa.Call); ok {
+						if callee := core.Canon(call.Call.StaticCallee()); callee != nil && callee != fn && e.P.InModule(callee) {
+							for _, pr := range e.exclusive(callee) {
+								if (pr[0] == ei.Index && pr[1] == ej.Index) || (pr[1] == ei.Index && pr[0] == ej.Index) {
+									fwd = true
+								}
+							}
+						}
+					}
+				}
+				if !fwd {
 					all = false
 					break
 				}
